@@ -57,11 +57,11 @@ pub(crate) mod kani_verif {
     lifetime_harness!(c13_lifetime_l2, 2);
     // @h name=c13_lifetime_l3 props=C13,C05! tier=quick kind=proved cfg=w8 funcs=HssPrivateKey::get_lifetime contract="same, length 3 (total height up to 75: no arithmetic failure)"
     lifetime_harness!(c13_lifetime_l3, 3);
-    // @h name=c13_lifetime_l4 props=C13,C05 tier=thorough kind=proved cfg=w8 funcs=HssPrivateKey::get_lifetime contract="same, length 4"
+    // @h name=c13_lifetime_l4 props=C13,C05 tier=extended kind=proved cfg=w8 funcs=HssPrivateKey::get_lifetime contract="same, length 4"
     lifetime_harness!(c13_lifetime_l4, 4);
-    // @h name=c13_lifetime_l5 props=C13,C05 tier=thorough kind=proved cfg=w8 funcs=HssPrivateKey::get_lifetime contract="same, length 5"
+    // @h name=c13_lifetime_l5 props=C13,C05 tier=extended kind=proved cfg=w8 funcs=HssPrivateKey::get_lifetime contract="same, length 5"
     lifetime_harness!(c13_lifetime_l5, 5);
-    // @h name=c13_lifetime_l8 props=C13,C05 tier=thorough kind=proved cfg=w8 funcs=HssPrivateKey::get_lifetime contract="same, length 8"
+    // @h name=c13_lifetime_l8 props=C13,C05 tier=extended kind=proved cfg=w8 funcs=HssPrivateKey::get_lifetime contract="same, length 8"
     lifetime_harness!(c13_lifetime_l8, 8);
 
     // ================================================================== HssPrivateKey::from: wiring of the levels (C03 e/f, C07, C01)
@@ -346,7 +346,7 @@ pub(crate) mod kani_verif {
     from_harness!(c03_from_l2_mixed, 2, Some([1u8, 9u8]));
     // @h name=c03_from_l2_sym props=C03,C07,C01,C05,C13,C10 tier=extended kind=proved cfg=L2w8 timeout=7200 funcs=HssPrivateKey::from contract="same, L=2, all height pairs (symbolic)"
     from_harness!(c03_from_l2_sym, 2, None);
-    // @h name=c03_from_l3 props=C03,C07,C01,C05,C13,C10 tier=thorough kind=proved cfg=L3w8 timeout=7200 funcs=HssPrivateKey::from contract="same, L=3, heights (5,10,5)"
+    // @h name=c03_from_l3 props=C03,C07,C01,C05,C13,C10 tier=extended kind=proved cfg=L3w8 timeout=7200 funcs=HssPrivateKey::from contract="same, L=3, heights (5,10,5)"
     from_harness!(c03_from_l3, 3, Some([5u8, 6u8, 5u8]));
     // @h name=c03_from_l8 props=C03,C07,C01,C05,C13,C10 tier=extended kind=proved cfg=w8 timeout=14400 funcs=HssPrivateKey::from contract="same, L=8, heights (5,5,5,5,5,5,5,10)"
     from_harness!(c03_from_l8, 8, Some([5u8, 5, 5, 5, 5, 5, 5, 6]));
@@ -409,7 +409,7 @@ pub(crate) mod kani_verif {
         assert!(slice.len() == 84, "shrunk to the used length");
         kani::cover!(true, "reachable");
     }
-    // @h name=c10_aux_front_n16 props=C10,C11 tier=thorough kind=proved cfg=w8 timeout=2400 funcs=HssPrivateKey::get_expanded_aux_data;hss_is_aux_data_used;hss_get_aux_data_len;hss_store_aux_marker contract="every buffer of length 0..100 and every content: no panic; fresh buffers are shrunk, zeroed and marked before use (stale contents never read back); in-use buffers go through the MAC check (compute_hmac by contract)"
+    // @h name=c10_aux_front_n16 props=C10,C11 tier=extended kind=proved cfg=w8 timeout=2400 funcs=HssPrivateKey::get_expanded_aux_data;hss_is_aux_data_used;hss_get_aux_data_len;hss_store_aux_marker contract="every buffer of length 0..100 and every content: no panic; fresh buffers are shrunk, zeroed and marked before use (stale contents never read back); in-use buffers go through the MAC check (compute_hmac by contract)"
     #[kani::proof]
     #[kani::stub(zeroize::optimization_barrier, no_barrier)]
     #[kani::stub(<[u8; 32] as tinyvec::Array>::default, fast_default)]
@@ -429,7 +429,7 @@ pub(crate) mod kani_verif {
     fn c10_aux_front_24() {
         check_aux_front::<24>();
     }
-    // @h name=c10_aux_front_fresh_h2 props=C10,C11,C09 tier=thorough kind=bounded cfg=w8 timeout=2400 funcs=HssPrivateKey::get_expanded_aux_data;hss_expand_aux_data;hss_store_aux_marker note="one concrete buffer length (100) and top tree (4 leaves, n = 16); all lengths 0..100 and all top trees: c10_aux_front_n16 (thorough)" contract="a fresh 100-byte buffer with arbitrary stale contents: shrunk to 84, level 2 cached, every cached byte zero before use, marker = level word"
+    // @h name=c10_aux_front_fresh_h2 props=C10,C11,C09 tier=extended kind=bounded cfg=w8 timeout=2400 funcs=HssPrivateKey::get_expanded_aux_data;hss_expand_aux_data;hss_store_aux_marker note="one concrete buffer length (100) and top tree (4 leaves, n = 16); all lengths 0..100 and all top trees: c10_aux_front_n16 (thorough)" contract="a fresh 100-byte buffer with arbitrary stale contents: shrunk to 84, level 2 cached, every cached byte zero before use, marker = level word"
     #[kani::proof]
     #[kani::stub(zeroize::optimization_barrier, no_barrier)]
     #[kani::stub(<[u8; 32] as tinyvec::Array>::default, fast_default)]
@@ -580,9 +580,9 @@ pub(crate) mod kani_verif {
     keygen_harness!(c11_keygen_len8, 8);
     // @h name=c11_keygen_len9 props=C11,C14! tier=quick kind=proved cfg=w8 timeout=1800 funcs=hss_keygen;CompressedParameterSet::from contract="9 levels: Err, no panic"
     keygen_harness!(c11_keygen_len9, 9);
-    // @h name=c11_keygen_len10 props=C11,C14 tier=thorough kind=proved cfg=w8 timeout=1800 funcs=hss_keygen;CompressedParameterSet::from contract="10 levels: Err, no panic"
+    // @h name=c11_keygen_len10 props=C11,C14 tier=extended kind=proved cfg=w8 timeout=1800 funcs=hss_keygen;CompressedParameterSet::from contract="10 levels: Err, no panic"
     keygen_harness!(c11_keygen_len10, 10);
-    // @h name=c11_keygen_len4 props=C11,C08 tier=thorough kind=proved cfg=w8 timeout=1800 funcs=hss_keygen contract="4 levels: Ok"
+    // @h name=c11_keygen_len4 props=C11,C08 tier=extended kind=proved cfg=w8 timeout=1800 funcs=hss_keygen contract="4 levels: Ok"
     keygen_harness!(c11_keygen_len4, 4);
 
     // ================================================================== C14: parameter lists against the build limits
@@ -627,6 +627,6 @@ pub(crate) mod kani_verif {
     limits_harness!(c14_limits_L2small_l2, 2);
     // @h name=c14_limits_L2small_l3 props=C14,C11! tier=quick kind=proved cfg=L2small timeout=1800 funcs=hss_keygen;CompressedParameterSet::from contract="same, 3-level lists (beyond the level limit): Err"
     limits_harness!(c14_limits_L2small_l3, 3);
-    // @h name=c14_limits_default_l2 props=C14,C11 tier=thorough kind=proved cfg=w8 timeout=1800 funcs=hss_keygen contract="W8-minimum build, 2-level lists"
+    // @h name=c14_limits_default_l2 props=C14,C11 tier=extended kind=proved cfg=w8 timeout=1800 funcs=hss_keygen contract="W8-minimum build, 2-level lists"
     limits_harness!(c14_limits_default_l2, 2);
 }
